@@ -837,6 +837,7 @@ func (x *Exec) tieWith(dl time.Time, what string) {
 		for _, c := range x.w.clients {
 			c.freshChallenge = false // time has passed: nobody's nonce is "just issued" any more
 		}
+		x.w.handlerYield.Store(300)
 		x.St.inc("tie:" + what)
 		x.w.tracef("tie: acting at the instant the %s expires", what)
 	}
